@@ -14,7 +14,7 @@
 #define VF_FLAGS (VF_FLAG_REF | VF_FLAG_CONSTKEY | VF_FLAG_REFCONT)
 #define VF_KINDS 0xFF
 #include "vf_tree.h"
-#define VF_INPUTS(X) VF_TREE_INPUTS(X) X(unsigned char, recurse, ) X(unsigned char, fail_at, ) X(unsigned char, shape, )
+#define VF_INPUTS(X) VF_TREE_INPUTS(X) X(unsigned char, recurse, ) X(int, recval, ) X(unsigned char, fail_at, ) X(unsigned char, shape, )
 #define VF_MAXSZ 7
 #include "vf.h"
 #include "vf_str.h"
@@ -72,7 +72,7 @@ int main(VF_MAIN_ARGS)
     vf_fail_at = IN.fail_at ? vf_nreq + IN.fail_at : 0;
 
     VF_FRAME_BEGIN();
-    copy = cJSON_Duplicate(root, IN.recurse & 1);
+    copy = cJSON_Duplicate(root, (IN.recurse & 1) ? (IN.recval != 0 ? IN.recval : 1) : 0);     /* cJSON.h: "With recurse!=0, it will duplicate any children" - any non-zero int */
     VF_FRAME_END(0);
 
     for (i = 0; i < TNN; i++) if (T.node[i]) VF_AP(11, memcmp(&snap[i], T.node[i], sizeof(cJSON)) == 0, "C11 the source is never modified");
